@@ -178,6 +178,20 @@ CLAIMED["C10"] = {
     "technique": "TLA+ emit/parse/build model checked exhaustively over builder terms + the same terms replayed through the real builder, emitter and parser with TLC trace validation",
 }
 
+CLAIMED["C11"] = {
+    "level": "model_checking",
+    "text": ("Walk.tla is an M-spec of the loop of walk.Generic (cursor stack, Enter/Visit/Exit, Consume/SetDone/SetError, nil branches); TLC checks the "
+             "protocol properties on every ordered tree up to the bound with every placement of reactions, and every finished walk it generates is replayed "
+             "on the real walk.Generic.  WalkTrace.tla is the P-spec monitor: callbacks recorded from walk.CypherStructural, walk.Cypher and walk.PgSQL over "
+             "every corpus model (undisturbed, scripted reactions, nil branches, sub-tree and nil roots) are validated against a reference tree computed by "
+             "reflection over the model structs - structural walks must cover it exactly, semantic walks stay inside it - and cypher.Copy facts (equal, "
+             "no shared mutable part, independent under mutation of either side) are validated for every node of every model."),
+    "design_ref": "DESIGN.md 4/C11",
+    "note": ("The copy half is a reflection oracle whose facts the trace monitor merely checks; opaque payloads (Literal.Value, Parameter.Value) are treated as "
+             "user data, not as parts of the model.  walk.PgSQL has no reference tree: protocol only.  Models are parser-built; builder-only shapes are not included."),
+    "technique": "TLC model checking of the walk loop + replay of all generated walks on walk.Generic + trace validation of real walker callbacks against a reflection tree",
+}
+
 CLAIMED["C07"] = {
     "level": "exploration",
     "text": ("Faithfulness of text -> model over a 1000-line grammar is explored, not enumerated. The TLA+ part: CypherExpr/CypherExprCheck model-check "
@@ -207,5 +221,5 @@ CLAIMED["C08"] = {
 _NB = "not built yet in this round (design in DESIGN.md section 4)"
 NOT_APPLICABLE = {
     "C01": "needs the emitted SQL executed on PostgreSQL; no SQL engine exists in this sandbox and a TLA+ model of PostgreSQL would verify the model, not DAWGS (DESIGN.md section 5)",
-    "C02": _NB, "C03": _NB, "C04": _NB, "C05": _NB, "C06": _NB, "C11": _NB, 
+    "C02": _NB, "C03": _NB, "C04": _NB, "C05": _NB, "C06": _NB,
 }
